@@ -251,6 +251,19 @@ func vfCountDiffs(L int, gapmode int, symsel bool) {
 	}
 	w := vfWeights(L)
 	rmAmb := nondetBool()
+	if gapmode == 1 && symsel {
+		// Sites are only ever unselected by the gap-site removal, which drops every site holding a
+		// gap in some row: so either all sites are selected, or the selected ones hold no gap in
+		// these two rows (whether an unselected site interrupts a leading gap run is then moot).
+		all, nogap := true, true
+		for k := 0; k < L; k++ {
+			all = all && sel[k]
+			if sel[k] && (!isNuc(s1[k]) || !isNuc(s2[k])) {
+				nogap = false
+			}
+		}
+		assume(all || nogap)
+	}
 	var d, t float64
 	switch gapmode {
 	case 0:
@@ -298,8 +311,8 @@ func H_C07_count_diffs_gaps_L4() {
 }
 
 // H_C07_count_diffs_internal: countDiffsWithInternalGaps (gap-mut 1) counts gap vs nucleotide only outside the leading/trailing gap runs of both rows, on the selected sites.
-// bounds: two encoded rows of L<=3 symbolic codes 0..15, symbolic selectedSites (rm-gaps may have removed any site), weights nil or dyadic k/2 (k=1..8), removeAmbiguous symbolic
-// outside: L>3, codes > 15; IEEE rounding is outside the claim: floats are exact reals
+// bounds: two encoded rows of L<=3 symbolic codes 0..15, symbolic selectedSites as the gap-site removal can produce them (all selected, or no gap on the selected sites), weights nil or dyadic k/2 (k=1..8), removeAmbiguous symbolic
+// outside: L>3, codes > 15; selections that rm-gaps cannot produce; IEEE rounding is outside the claim: floats are exact reals
 func H_C07_count_diffs_internal() {
 	vfCountDiffs(nondetRange(1, 3), 1, true)
 }
